@@ -122,6 +122,21 @@ PLAN = {
         quick=[rapid("prop", "TestProp", 10000)],
         thorough=[rapid("prop", "TestProp", 60000, shards=16), fuzz("fuzz", "FuzzC08", 45)],
     ),
+    "C09": dict(
+        pkg="c09",
+        rule=("exhaustive: every sequence of 0..4 (thorough 0..5) symbols over a 15-symbol alphabet (AddHeaders with 0/1/2 cells incl. multi-line, AddRowItems with 0/1/2/3 cells incl. nil/empty/wide, AddSeparator, AppendNewRow, "
+              "Row.Add on the last created row incl. separators and attached rows, a pre-built row via NewRowSizedFor+Add+AddRow, rows with height-under-declaring, height-over-declaring, width-mis-declaring and empty-text-zero-width items, a zero-value row, a row holding a NaN float which JSON cannot encode) "
+              "x 11 styles (csv, html, json, markdown, the six registered decorations, an unknown decoration) x {wrapper Render(), auto.Render(style)}, each on a freshly built table; plus rapid-generated histories of up to 40 operations "
+              "with items of every kind incl. items whose declared size disagrees with the text in every direction (negative, zero, too small, too large). Oracle under recover(): no panic; error => empty string and RenderTo also fails; "
+              "no error => Render equals what RenderTo writes and non-empty output is newline-terminated. Non-trivial: the history has a zero-cell row/header, a late add, a separator first or last, or a size-disagreeing item. "
+              "Enumerated (history, style, route) triples are distinct by construction; random cases by FNV-64 of the case."),
+        level_text=("Bounded exhaustive enumeration of build histories crossed with every renderer, style and entry point, with a validity predicate under recover(); random longer histories on top. "
+                    "Exploration level; complete within the enumerated bound (reported as enumerated_subruns)."),
+        level_note="The validity predicate only demands what the statement says (no panic; error => no text; success => Render == RenderTo and newline-terminated non-empty output); it does not judge the content (C03-C08 do).",
+        technique="bounded exhaustive enumeration of operation sequences x renderers + property-based testing (rapid) with a validity predicate under recover()",
+        quick=[enum("enum", "TestEnum", shards=15, env={"VERIF_C09_ENUM_LEN": 4}), rapid("prop", "TestProp", 5000)],
+        thorough=[enum("enum", "TestEnum", shards=15, env={"VERIF_C09_ENUM_LEN": 5}, timeout=3000), rapid("prop", "TestProp", 30000, shards=16)],
+    ),
     "C18": dict(
         pkg="c18",
         rule=("strings built from a width-hostile token alphabet (newlines leading/trailing/repeated, CJK wide, full-width, combining, zero-width, emoji ZWJ/flag/skin-tone sequences, "
